@@ -745,6 +745,13 @@ pub fn gen_planner(rng: &mut Xo, kind: PlannerKind, ext: f64) -> PlannerSpec {
         1 => ext * rng.range(1.0, 10.0),
         _ => ext * rng.range(0.1, 0.6),
     };
+    // degenerate steps: exactly 0, or positive but below the float resolution of the coordinates
+    // (every extension then "advances" without moving)
+    let max_distance = match rng.below(60) {
+        0 => 0.0,
+        1 => 1e-20 * ext,
+        _ => max_distance,
+    };
     // degenerate radii: exactly 0 (RRT* then has no neighbours, PRM no links)
     let search_radius = if rng.chance(0.03) { 0.0 } else { search_radius };
     let connection_radius = if rng.chance(0.02) { 0.0 } else { connection_radius };
@@ -1061,7 +1068,7 @@ pub fn base(rng: &mut Xo, prop: &str, seed: u64, index: u64, o: &GenOpts) -> Sce
         worlds: vec![wb.world],
         problems: vec![ProblemSpec {
             starts,
-            goal: GoalSpec { target: wb.target, radius: wb.goal_radius, sampler, sampler_seed: rng.u64() % 1_000_000, comp: wb.goal_comp, harness_metric: hm },
+            goal: GoalSpec { target: wb.target, radius: wb.goal_radius, sampler, sampler_seed: rng.u64() % 1_000_000, comp: wb.goal_comp, harness_metric: hm, cycle: vec![] },
             world: 0, space: None
         }],
         planner,
